@@ -349,4 +349,9 @@ theorem epilogue_tstep {s : Shared} {t : Tid} {l : Loc} {ch : Choice} {s' l' evs
   rcases hpc with hpc | hpc | hpc | hpc <;> simp only [tstep, hpc] at hs <;>
     (injection hs with hs; injection hs with h1 h2; injection h2 with h2 h3; subst h1 h2 h3; simp)
 
+/-- the deferred calls of the closure and the flush never block and need no choice -/
+theorem epilogue_enabled (s : Shared) (t : Tid) (l : Loc) (ch : Choice)
+    (hpc : l.pc = .dOut ∨ l.pc = .dUnlock ∨ l.pc = .dRec ∨ l.pc = .flush) : (tstep s t l ch).isSome = true := by
+  rcases hpc with hpc | hpc | hpc | hpc <;> simp [tstep, hpc]
+
 end NodisVerif.GateProg
